@@ -1,156 +1,9 @@
 /-
   C12 — Name-based lookups agree with the enumerated attributes and namespaces.
+  `Rox.Props.C12Base`: the lookups against the enumerations, for any arena on which the accessors
+  return; `Rox.Props.C12Parsed`: the same with no accessor hypothesis left — on every node of every
+  parsed document (every valid UTF-8 input, every option value) the accessors return and the
+  lookups select the first matching attribute / binding.
 -/
-import Rox.Api
-
-namespace Rox.Props.C12
-open Rox Rox.Api
-
-/-- `findAttr` returns the first index of the list whose expanded name equals the query, and
-`none` only if no index matches (all under "no accessor panics"). -/
-theorem findAttr_spec (d : Doc) (ns : Option Bytes) (name : Bytes) :
-    ∀ (l : List Nat) (r : Option Nat), findAttr d ns name l = .ok r →
-      match r with
-      | some k => ∃ pre post, l = pre ++ k :: post ∧ attrExpanded d k = .ok (ns, name) ∧
-                    ∀ j ∈ pre, ∃ e, attrExpanded d j = .ok e ∧ e ≠ (ns, name)
-      | none => ∀ j ∈ l, ∃ e, attrExpanded d j = .ok e ∧ e ≠ (ns, name) := by
-  intro l
-  induction l with
-  | nil => intro r h; simp [findAttr] at h; subst h; simp
-  | cons k rest ih =>
-    intro r h
-    simp only [findAttr] at h
-    cases hk : attrExpanded d k with
-    | ok e =>
-      rw [hk] at h
-      simp only [bind, Res.bind] at h
-      by_cases he : e = (ns, name)
-      · subst he
-        simp at h
-        subst h
-        exact ⟨[], rest, rfl, hk, by simp⟩
-      · have : (e == (ns, name)) = false := by simpa using he
-        simp only [this] at h
-        have := ih r h
-        cases r with
-        | some k' =>
-          obtain ⟨pre, post, hl, hk', hpre⟩ := this
-          refine ⟨k :: pre, post, by simp [hl], hk', ?_⟩
-          intro j hj
-          rcases List.mem_cons.mp hj with rfl | hj
-          · exact ⟨e, hk, he⟩
-          · exact hpre j hj
-        | none =>
-          intro j hj
-          rcases List.mem_cons.mp hj with rfl | hj
-          · exact ⟨e, hk, he⟩
-          · exact this j hj
-    | err e => rw [hk] at h; simp [bind, Res.bind] at h
-    | panic s => rw [hk] at h; simp [bind, Res.bind] at h
-    | fuel => rw [hk] at h; simp [bind, Res.bind] at h
-
-/-- `attribute_node(n)` selects the first attribute of `attributes()` whose expanded name is `n`. -/
-theorem attributeNode_first (d : Doc) (i : Nat) (ns : Option Bytes) (name : Bytes) (it : SliceIt)
-    (hit : attributes d i = .ok it) (k : Nat) (h : attributeNode d i ns name = .ok (some k)) :
-    ∃ pre post, it.toList = pre ++ k :: post ∧ attrExpanded d k = .ok (ns, name) ∧
-      ∀ j ∈ pre, ∃ e, attrExpanded d j = .ok e ∧ e ≠ (ns, name) := by
-  unfold attributeNode at h
-  rw [hit] at h
-  exact findAttr_spec d ns name it.toList (some k) h
-
-/-- `attribute_node(n)` is `None` only when no enumerated attribute has that expanded name. -/
-theorem attributeNode_none (d : Doc) (i : Nat) (ns : Option Bytes) (name : Bytes) (it : SliceIt)
-    (hit : attributes d i = .ok it) (h : attributeNode d i ns name = .ok none) :
-    ∀ j ∈ it.toList, ∃ e, attrExpanded d j = .ok e ∧ e ≠ (ns, name) := by
-  unfold attributeNode at h
-  rw [hit] at h
-  exact findAttr_spec d ns name it.toList none h
-
-/-- `attribute(n)` is the value of `attribute_node(n)`, `has_attribute(n)` its presence. -/
-theorem attributeValue_eq (d : Doc) (i : Nat) (ns : Option Bytes) (name : Bytes) (k : Nat)
-    (a : AttrData) (h : attributeNode d i ns name = .ok (some k)) (ha : attrAt d k = .ok a) :
-    attributeValue d i ns name = .ok (some a.value.bytes) ∧ hasAttribute d i ns name = .ok true := by
-  simp [attributeValue, hasAttribute, h, ha, bind, Res.bind]
-
-theorem attributeValue_none (d : Doc) (i : Nat) (ns : Option Bytes) (name : Bytes)
-    (h : attributeNode d i ns name = .ok none) :
-    attributeValue d i ns name = .ok none ∧ hasAttribute d i ns name = .ok false := by
-  simp [attributeValue, hasAttribute, h, bind, Res.bind]
-
-/-- A bare name (no namespace given) only ever selects an attribute without a namespace. -/
-theorem bare_name_no_namespace (d : Doc) (i : Nat) (name : Bytes) (it : SliceIt)
-    (hit : attributes d i = .ok it) (k : Nat) (h : attributeNode d i none name = .ok (some k)) :
-    ∃ e, attrExpanded d k = .ok e ∧ e.1 = none := by
-  obtain ⟨_, _, _, hk, _⟩ := attributeNode_first d i none name it hit k h
-  exact ⟨_, hk, rfl⟩
-
-/-- `has_tag_name`: only elements; the local name must be equal; a given namespace must be equal
-too (so it never matches an element without namespace), and no namespace given matches any. -/
-theorem hasTagName_iff (d : Doc) (i : Nat) (n : NodeData) (hn : d.nodes[i]? = some n)
-    (nsq : Option Bytes) (name : Bytes) (uri : Option Bytes) (loc : Bytes)
-    (htn : tagName d i = .ok (uri, loc)) (hel : n.kind.isElement = true) :
-    hasTagName d i nsq name = .ok (loc == name && (nsq.isNone || nsq == uri)) := by
-  unfold hasTagName tagName kindOf getNodeUnwrap at *
-  simp only [hn, bind, Res.bind, pure] at *
-  cases hk : n.kind with
-  | element nsIdx l a nss =>
-    rw [hk] at htn
-    simp only at htn
-    cases nsq with
-    | none =>
-      simp only [Option.isNone_none, Bool.true_or, Bool.and_true]
-      unfold expandedName at htn
-      cases nsIdx with
-      | none => simp at htn; simp [htn.2]
-      | some vi =>
-        simp only [bind, Res.bind] at htn
-        cases hv : nsByIdx d vi with
-        | ok v => rw [hv] at htn; simp at htn; simp [htn.2]
-        | err e => rw [hv] at htn; simp at htn
-        | panic s => rw [hv] at htn; simp at htn
-        | fuel => rw [hv] at htn; simp at htn
-    | some q =>
-      simp only [htn, Res.ok.injEq, Option.isNone_some, Bool.false_or]
-      rw [Bool.eq_iff_iff]
-      simp only [beq_iff_eq, Prod.mk.injEq, Bool.and_eq_true]
-      constructor
-      · rintro ⟨h1, h2⟩; exact ⟨h2, h1.symm⟩
-      · rintro ⟨h1, h2⟩; exact ⟨h2.symm, h1⟩
-  | root => rw [hk] at hel; simp [Kind.isElement] at hel
-  | pi _ _ => rw [hk] at hel; simp [Kind.isElement] at hel
-  | comment _ => rw [hk] at hel; simp [Kind.isElement] at hel
-  | text _ => rw [hk] at hel; simp [Kind.isElement] at hel
-
-/-- `has_tag_name` is false and `tag_name()` is the empty name without namespace on non-elements. -/
-theorem non_element (d : Doc) (i : Nat) (n : NodeData) (hn : d.nodes[i]? = some n)
-    (hel : n.kind.isElement = false) (nsq : Option Bytes) (name : Bytes) :
-    hasTagName d i nsq name = .ok false ∧ tagName d i = .ok (none, []) := by
-  unfold hasTagName tagName kindOf getNodeUnwrap
-  simp only [hn, bind, Res.bind, pure]
-  cases hk : n.kind <;> simp_all [Kind.isElement]
-
-/-- `lookup_prefix` answers `xml` for the XML namespace URI on every node. -/
-theorem lookupPrefix_xml (d : Doc) (i : Nat) : lookupPrefix d i nsXmlUri = .ok (some Lit.xml) := by
-  simp [lookupPrefix]
-
-/-- The namespace lookups return the first matching binding of `namespaces()`. -/
-theorem lookups_first (d : Doc) (i : Nat) (l : List Namespace) (h : namespaceList d i = .ok l) :
-    defaultNamespace d i = .ok ((l.find? fun ns => ns.name.isNone).map (·.uri.bytes)) ∧
-    (∀ p, lookupNamespaceUri d i p = .ok ((l.find? fun ns => ns.nameBytes == p).map (·.uri.bytes))) ∧
-    (∀ u, u ≠ nsXmlUri →
-      lookupPrefix d i u = .ok (((l.find? fun ns => ns.uri.bytes == u).map (·.nameBytes)).getD none)) := by
-  refine ⟨by simp [defaultNamespace, h, bind, Res.bind], ?_, ?_⟩
-  · intro p; simp [lookupNamespaceUri, h, bind, Res.bind]
-  · intro u hu
-    have : (u == nsXmlUri) = false := by simpa using hu
-    simp [lookupPrefix, this, h, bind, Res.bind]
-
-/-- Two attributes compare equal exactly when expanded name and value are equal. -/
-theorem attrEq_iff (d : Doc) (k1 k2 : Nat) (a1 a2 : AttrData) (e1 e2 : Option Bytes × Bytes)
-    (h1 : attrAt d k1 = .ok a1) (h2 : attrAt d k2 = .ok a2)
-    (he1 : expandedName d a1.nsIdx a1.localName = .ok e1)
-    (he2 : expandedName d a2.nsIdx a2.localName = .ok e2) :
-    attrEq d k1 k2 = .ok (e1 == e2 && a1.value.bytes == a2.value.bytes) := by
-  simp [attrEq, h1, h2, he1, he2, bind, Res.bind]
-
-end Rox.Props.C12
+import Rox.Props.C12Base
+import Rox.Props.C12Parsed
